@@ -5,11 +5,13 @@ import (
 	"os"
 
 	"verif/harness/checks/c01"
+	"verif/harness/checks/c02"
 	"verif/harness/vf"
 )
 
 var checks = map[string]func(*vf.Check){
 	"C01": c01.Run,
+	"C02": c02.Run,
 }
 
 func main() {
